@@ -629,13 +629,56 @@ Section Commit.
   Proof.
     unfold rm_orphaned_files. change (head_of i) with h. fold So. apply keeps_get_tree'. intros t1.
     destruct (exists_at t1 (So ++ [h; c_cdir c])); [|apply keeps_ret].
-    apply keeps_forM. intros f I. apply filter_In in I as [I NM].
-    unfold files_below in I. apply in_map_iff in I as [[f' n] [<- I]]. apply filter_In in I as [_ B]. cbn [fst snd] in *.
-    apply andb_true_iff in B as [B _]. apply below_iff in B as [U NE]. apply under_iff in U as [s ->].
-    assert (Ns : s <> []) by (intros ->; apply NE; now rewrite app_nil_r).
-    rewrite <- app_assoc in *. cbn [app] in *.
-    apply (keeps_rm_one _ s eq_refl Ns). intros X. apply mem_path_In in X.
-    rewrite skipn_app, skipn_all, Nat.sub_diag in NM. cbn [skipn app] in NM. rewrite X in NM. discriminate.
+    apply keeps_andthen.
+    - apply keeps_forM. intros f I. apply filter_In in I as [I NM].
+      unfold files_below in I. apply in_map_iff in I as [[f' n] [<- I]]. apply filter_In in I as [_ B]. cbn [fst snd] in *.
+      apply andb_true_iff in B as [B _]. apply below_iff in B as [U NE]. apply under_iff in U as [s ->].
+      assert (Ns : s <> []) by (intros ->; apply NE; now rewrite app_nil_r).
+      rewrite <- app_assoc in *. cbn [app] in *.
+      apply (keeps_rm_one _ s eq_refl Ns). intros X. apply mem_path_In in X.
+      rewrite skipn_app, skipn_all, Nat.sub_diag in NM. cbn [skipn app] in NM. rewrite X in NM. discriminate.
+    - apply keeps_get_tree'. intros t2. destruct (exists_at t2 (So ++ [h; c_cdir c])); [|apply keeps_ret].
+      apply (keeps_clean_dirs_down (JP l6) (bad_JP l6) (stable_JP l6)). intros q U t t' J E.
+      apply (good_rmdir t t' q q J E (under_refl _)). eapply under_trans; [apply under_app | exact U].
+  Qed.
+
+  (** the declaration rewrite of a never committed object (repo.rs:1079): it works on children of the staged
+      object root that are neither the inventory nor the sidecar, creating what is absent and removing or
+      writing files *)
+  Lemma child_good t a :
+    JP l6 t -> a <> c_inv c -> a <> c_side c ->
+    (lookup t (So ++ [a]) = None \/ exists cnt, lookup t (So ++ [a]) = Some (File cnt)) -> ~ bad_JP l6 (So ++ [a]).
+  Proof.
+    intros J Ni Ns F. intros [X | X]; [now apply (not_bad_base_single a)|].
+    in_pts_cases X.
+    - apply app_neq_len in X; [exact X | cbn; lia].
+    - apply app_neq_len in X; [exact X | cbn; lia].
+    - apply app_single_inj in X. subst a. rewrite (Pts_l6 t (So ++ [h]) (Some Dir) J) in F by (cbn; auto 10).
+      destruct F as [F | [cnt F]]; discriminate.
+    - apply app_single_inj in X. congruence.
+    - apply app_single_inj in X. congruence.
+    - now apply So_neq_sub in X.
+  Qed.
+
+  Lemma keeps_stage_object_declaration : keeps (JP l6) (stage_object_declaration c i).
+  Proof.
+    unfold stage_object_declaration. fold So. change (i_spec i) with (i_spec i0).
+    pose proof (st_spec_inv c t0 i0 SO) as Ni. pose proof (st_spec_side c t0 i0 SO) as Ns.
+    apply keeps_get_tree'. intros t1. apply keeps_andthen.
+    - match goal with |- keeps _ (if ?b then _ else _) => destruct b end; [apply keeps_ret|].
+      apply keeps_andthen.
+      + apply (keeps_remove_file_inf (JP l6) (bad_JP l6) (stable_JP l6)). intros t t' J E.
+        apply fs_unlink_ok in E as [_ F]. apply (child_good t _ J Ni Ns). now right.
+      + unfold write_namaste. apply keeps_andthen; apply (keeps_step (JP l6) (bad_JP l6) (stable_JP l6)); (split; [reflexivity|]); cbn; intros t t' J E.
+        * apply fs_create_new_ok in E as [_ N]. apply (child_good t _ J Ni Ns). now left.
+        * apply fs_finish_ok in E as [_ F]. apply (child_good t _ J Ni Ns). now right.
+    - apply keeps_forM. intros q I. apply filter_In in I as [I _]. unfold find_decls in I. apply in_map_iff in I as [[q' n] [<- I]].
+      apply filter_In in I as [I D]. apply filter_In in I as [_ C]. cbn [fst snd] in *.
+      apply (keeps_remove_file_inf (JP l6) (bad_JP l6) (stable_JP l6)). intros t t' J E.
+      apply fs_unlink_ok in E as [_ F]. apply is_child_inv in C as [a ->]. rewrite last_app_single in D.
+      apply (child_good t a J); [| | now right].
+      + intros ->. rewrite (ok_inv_nodecl c CO) in D. discriminate.
+      + intros ->. rewrite (ok_side_nodecl c CO) in D. discriminate.
   Qed.
 
   (** the staged inventory is read back as it was written *)
